@@ -147,6 +147,27 @@ def case(ctx, rng, idx):
         terms = {k: v * sc_ for k, v in terms.items()}
         ctx.cat("tiny-scale")
     m = dict(terms) if tn == "dict" else gen.model_of(getattr(L, tn), terms)
+    if tn != "dict" and not mat and labs and rng.random() < 0.08:
+        # a variable object (create_var / boolean_var / spin_var: one term, carries its name) edited IN PLACE: it keeps the name
+        # while it stops being "just the variable" -- rescaled, shifted, possibly grown by the terms above
+        T_ = getattr(L, tn)
+        m = (L.boolean_var if tn == "PCBO" else L.spin_var)(labs[0]) if (tn in ("PCBO", "PCSO") and rng.random() < 0.5) else T_.create_var(labs[0])
+        how_ = rng.choice(["scaled", "scaled", "divided", "set-item", "shifted", "grown"])
+        if how_ == "scaled":
+            m *= rng.choice([-3, 5, -0.5])
+        elif how_ == "divided":
+            m /= rng.choice([4, -2])
+        elif how_ == "set-item":
+            m[(labs[0],)] = rng.choice([-7, 3])
+        elif how_ == "shifted":
+            m *= -2
+            m += 5
+            m -= 5
+        else:
+            m *= 2
+            for k_, v_ in terms.items():
+                m[k_] += v_
+        ctx.cat("named-variable-edited-in-place")
     if tn == "dict" and rng.random() < 0.15:
         for x in labs[:2]:
             m.setdefault((x,), 0)             # a plain dict may carry explicit zero coefficients
